@@ -5,7 +5,7 @@
    fuel; the continuation [k] of the CPS-style model functions is specified by
    [Kspec]. *)
 From Coq Require Import List Arith Bool Lia.
-From Verif Require Import Base Syntax Sem SemLemmas Rewrite RwBase Rel.
+From Verif Require Import Base Syntax Sem SemLemmas Rewrite Side RwBase Rel.
 Import ListNotations.
 
 Set Implicit Arguments.
@@ -786,29 +786,6 @@ Section C.
   Qed.
 
   (* ================= supported statements (boolean, by fuel) ================= *)
-  Definition init_ok (i : option stmt) : bool :=
-    match i with None => true | Some (SAtom _) => true | _ => false end.
-  Definition is_if (s : stmt) : bool := match s with SIf _ _ _ _ => true | _ => false end.
-
-  Fixpoint supp (k : nat) (s : stmt) {struct k} : bool :=
-    match k with 0 => false | S k =>
-      match s with
-      | SAtom _ | SYield _ | SBreak | SContinue | SFallthrough => true
-      | SRet XReturn => true
-      | SBlock b => forallb (supp k) b
-      | SIf i c t e =>
-          init_ok i && forallb (supp k) t &&
-          match e with
-          | ENone => true
-          | EElse b => forallb (supp k) b
-          | EElif x => is_if x && supp k x
-          end
-      | _ => false
-      end
-    end.
-
-  Definition supps (k : nat) (l : list stmt) : bool := forallb (supp k) l.
-
   Lemma supp_S k s :
     supp (S k) s =
       match s with
